@@ -1,19 +1,22 @@
 """C10 fragments: which value each seeding call receives.  The calls themselves are outside the
 translator's subset; kind=subexpr picks the argument expression of each call (so `seed` -> `seed + 1`
 or a constant breaks the interface lemma), and pick=listcomp_elt the per-sub-env seed `seed + idx`."""
-_ARG = r"(?!np\b|random\b|th\b|self\.action_space\b|self\.env\b|set_random_seed\b)[^()]*seed[^()]*"
-# in BaseAlgorithm.set_random_seed the parameter `seed` and the attribute `self.seed` (the constructor's seed) are
-# DISTINCT inputs: passing self.seed where seed is meant must break the interface lemma
-_BI = dict(inputs=[("seed", "Z"), ("model_seed", "Z")], subst={"self.seed": "model_seed"})
+def _arg(callee):
+    """kind=subexpr regex: the outermost sub-expression that is not the call / its callee chain, i.e. the call's whole
+    first argument, whatever it is (`seed + 1` and a constant regenerate and break the lemma; an unsupported expression
+    such as hash(seed), or a missing argument, is reported as a fragment fallback)"""
+    return r"(?!" + callee + r"\b)(?!(self|th|np|random)$)(?!.*(device|cuda))(?s:.+)"
+
+
 _U = "stable_baselines3/common/utils.py"
 _B = "stable_baselines3/common/base_class.py"
 SPECS = [
     dict(name="seed_vecenv_elt", file="stable_baselines3/common/vec_env/base_vec_env.py", qual="VecEnv.seed", start=r"^self\._seeds = ", end=None,
          kind="expr", pick="listcomp_elt", ret="Z", inputs=[("seed", "Z"), ("idx", "Z")]),
-    dict(name="seed_py_arg", file=_U, qual="set_random_seed", start=r"^random\.seed\(", end=None, kind="subexpr", pick=_ARG, ret="Z", inputs=[("seed", "Z")]),
-    dict(name="seed_np_arg", file=_U, qual="set_random_seed", start=r"^np\.random\.seed\(", end=None, kind="subexpr", pick=_ARG, ret="Z", inputs=[("seed", "Z")]),
-    dict(name="seed_torch_arg", file=_U, qual="set_random_seed", start=r"^th\.manual_seed\(", end=None, kind="subexpr", pick=_ARG, ret="Z", inputs=[("seed", "Z")]),
-    dict(name="seed_global_arg", file=_B, qual="BaseAlgorithm.set_random_seed", start=r"^set_random_seed\(", end=None, kind="subexpr", pick=_ARG, ret="Z", **_BI),
-    dict(name="seed_aspace_arg", file=_B, qual="BaseAlgorithm.set_random_seed", start=r"^self\.action_space\.seed\(", end=None, kind="subexpr", pick=_ARG, ret="Z", **_BI),
-    dict(name="seed_env_arg", file=_B, qual="BaseAlgorithm.set_random_seed", start=r"^self\.env\.seed\(", end=None, kind="subexpr", pick=_ARG, ret="Z", **_BI),
+    dict(name="seed_py_arg", file=_U, qual="set_random_seed", start=r"^random\.seed\(", end=None, kind="subexpr", pick=_arg(r"random"), ret="Z", inputs=[("seed", "Z")]),
+    dict(name="seed_np_arg", file=_U, qual="set_random_seed", start=r"^np\.random\.seed\(", end=None, kind="subexpr", pick=_arg(r"np\.random"), ret="Z", inputs=[("seed", "Z")]),
+    dict(name="seed_torch_arg", file=_U, qual="set_random_seed", start=r"^th\.manual_seed\(", end=None, kind="subexpr", pick=_arg(r"th\.manual_seed"), ret="Z", inputs=[("seed", "Z")]),
+    dict(name="seed_global_arg", file=_B, qual="BaseAlgorithm.set_random_seed", start=r"^set_random_seed\(", end=None, kind="subexpr", pick=_arg(r"set_random_seed"), ret="Z", **_BI),
+    dict(name="seed_aspace_arg", file=_B, qual="BaseAlgorithm.set_random_seed", start=r"^self\.action_space\.seed\(", end=None, kind="subexpr", pick=_arg(r"self\.action_space"), ret="Z", **_BI),
+    dict(name="seed_env_arg", file=_B, qual="BaseAlgorithm.set_random_seed", start=r"^self\.env\.seed\(", end=None, kind="subexpr", pick=_arg(r"self\.env"), ret="Z", **_BI),
 ]
